@@ -322,13 +322,12 @@ def save_fault(ctx, w, op):
   # torn content: outcome only counted, never judged
   data = sf.surviving() if kind == "crash" else bytes(sf.buf)
   if raised is not None or kind in ("short", "crash"):
-    try:
-      with h5py.File(SimFile(data), "r") as f2:
-        m3 = qu.load_qmodel(f2, compile=False)
-      ctx.probe("torn_file_loaded")
-      del m3
-    except Exception:  # pylint: disable=broad-except
-      ctx.probe("torn_file_rejected")
+    # The torn file is NOT opened: what HDF5 does with a truncated image is
+    # not qkeras' business (the property says nothing about it) and the HDF5
+    # library can spin forever on one (seen in the thorough tier: h5py
+    # attrs.__getitem__ never returned for 3 of ~5 400 torn images, which the
+    # per-run watchdog turned into a dead worker).
+    ctx.probe("torn_file_left_%s" % ("empty" if not data else "partial"))
   # (ii) a subsequent complete save round-trips
   ok, m2 = guard(ctx, "restart:h5_fileobj", M.restart_model, w.model,
                  "h5_fileobj", w.scratch, always=True)
